@@ -1526,6 +1526,11 @@ func (s *ImmuStore) fetchVLog(vLogID byte) (appendable.Appendable, error) {
 		return s.vLogs[0].vLog, nil
 	}
 
+	if vLogID == 0 || int(vLogID) > len(s.vLogs) {
+		// the id comes from a value offset read from the tx log
+		return nil, fmt.Errorf("%w: value offset refers to value log %d, the store has %d", ErrCorruptedData, vLogID, len(s.vLogs))
+	}
+
 	s.vLogsCond.L.Lock()
 	defer s.vLogsCond.L.Unlock()
 
